@@ -63,6 +63,53 @@ pub fn check(c: &Case, full: bool, rec: &mut Rec) -> CheckResult {
     oracle::check_range(&built.bytes, &c.input.pairs, &c.bounds, full)
 }
 
+/// One large file with ranges around a sample of its keys.
+fn check_big(r: &gen::Recipe, rec: &mut Rec) -> CheckResult {
+    let pairs = r.pairs();
+    let set = r.values == 0;
+    let bytes = gen::build_plain(&pairs, set).map_err(|m| crate::engine::Fail::new("build-error", m))?;
+    if bytes.len() > 1 << 16 {
+        rec.class("file_over_64KiB");
+    }
+    // narrow windows around sampled keys, with present and absent bound keys of varying length
+    let n = pairs.len();
+    for j in 0..200usize {
+        rec.eval();
+        let i = (crate::engine::mix(r.seed, j as u64) % n as u64) as usize;
+        let w = 1 + (j % 40);
+        let lo = &pairs[i].0;
+        let hi = &pairs[(i + w).min(n - 1)].0;
+        let mut lo2 = lo.clone();
+        let mut hi2 = hi.clone();
+        match j % 4 {
+            0 => {}
+            1 => {
+                lo2.push(0);
+                hi2.extend_from_slice(&[0xff; 20]); // bound far longer than any key
+            }
+            2 => {
+                lo2.truncate(lo.len() / 2);
+                hi2.truncate(hi.len() - 1);
+            }
+            _ => {
+                lo2.extend_from_slice(b"-a-long-tail-beyond-sixteen-bytes");
+                if let Some(l) = hi2.last_mut() {
+                    *l = l.wrapping_add(1);
+                }
+            }
+        }
+        let b: Bounds = vec![(if j % 2 == 0 { Kind::Ge } else { Kind::Gt }, lo2), (if j % 3 == 0 { Kind::Le } else { Kind::Lt }, hi2)];
+        // the model filter over the whole content (a windowed filter would be
+        // unsound: a truncated lower bound reaches far before the sampled key)
+        let want = oracle::model_range(&pairs, &b);
+        let f = fst::raw::Fst::new(&bytes[..]).map_err(|e| crate::engine::Fail::new("open-failed", format!("{:?}", e)))?;
+        let got = gen::collect_stream(oracle::apply_raw(f.range(), &b));
+        vensure!(got == want, "range-mismatch", "large file ({} bytes): Fst::range(){} yields {} but the model gives {}", bytes.len(), oracle::bounds_show(&b), oracle::keys_show(&got), oracle::keys_show(&want));
+    }
+    rec.nontrivial(H::new().u(r.n).u(r.seed).u(0x03).get());
+    Ok(())
+}
+
 pub fn run(e: &Engine) {
     e.set_rule("cases are (built FST, history of 0..4 ge/gt/le/lt calls); bound keys are constructed from the model (keys, prefixes, +/- one byte, divergent at every depth, empty, random) or enumerated from the 341 strings over {`,a,b,c} of length <= 4; non-trivial = non-empty FST, at least one bound set, and some bound key is not itself a key; distinct by (FST hash, bound history) for generated cases and by construction (injective index -> case map) for the enumerated grid");
     e.assume("the model filter lo </<= k </<= hi with the last lower and last upper setting is the specification");
@@ -120,58 +167,17 @@ pub fn run(e: &Engine) {
         |c, rec| check(c, true, rec),
     );
     let big: Vec<gen::Recipe> = (0..e.tier.pick(6u64, 24)).map(|i| gen::Recipe { kind: (1 + i % 3) as u8, n: 30_000 + i * 23_000, seed: crate::engine::mix(e.seed, 300 + i), fanout: 3 + (i % 6) as u8, keylen: 10 + (i % 9) as u8, values: (i % 4) as u8 }).collect();
-    e.run_list("large-files-sampled-ranges", &big, |r| r.to_json(), |r, rec| {
-        let pairs = r.pairs();
-        let set = r.values == 0;
-        let bytes = gen::build_plain(&pairs, set).map_err(|m| crate::engine::Fail::new("build-error", m))?;
-        if bytes.len() > 1 << 16 {
-            rec.class("file_over_64KiB");
-        }
-        // narrow windows around sampled keys, with present and absent bound keys of varying length
-        let n = pairs.len();
-        for j in 0..200usize {
-            rec.eval();
-            let i = (crate::engine::mix(r.seed, j as u64) % n as u64) as usize;
-            let w = 1 + (j % 40);
-            let lo = &pairs[i].0;
-            let hi = &pairs[(i + w).min(n - 1)].0;
-            let mut lo2 = lo.clone();
-            let mut hi2 = hi.clone();
-            match j % 4 {
-                0 => {}
-                1 => {
-                    lo2.push(0);
-                    hi2.extend_from_slice(&[0xff; 20]); // bound far longer than any key
-                }
-                2 => {
-                    lo2.truncate(lo.len() / 2);
-                    hi2.truncate(hi.len() - 1);
-                }
-                _ => {
-                    lo2.extend_from_slice(b"-a-long-tail-beyond-sixteen-bytes");
-                    if let Some(l) = hi2.last_mut() {
-                        *l = l.wrapping_add(1);
-                    }
-                }
-            }
-            let b: Bounds = vec![(if j % 2 == 0 { Kind::Ge } else { Kind::Gt }, lo2), (if j % 3 == 0 { Kind::Le } else { Kind::Lt }, hi2)];
-            // the model filter over the whole content (a windowed filter would be
-            // unsound: a truncated lower bound reaches far before the sampled key)
-            let want = oracle::model_range(&pairs, &b);
-            let f = fst::raw::Fst::new(&bytes[..]).map_err(|e| crate::engine::Fail::new("open-failed", format!("{:?}", e)))?;
-            let got = gen::collect_stream(oracle::apply_raw(f.range(), &b));
-            vensure!(got == want, "range-mismatch", "large file ({} bytes): Fst::range(){} yields {} but the model gives {}", bytes.len(), oracle::bounds_show(&b), oracle::keys_show(&got), oracle::keys_show(&want));
-        }
-        rec.nontrivial(H::new().u(r.n).u(r.seed).u(0x03).get());
-        Ok(())
-    });
+    e.run_list("large-files-sampled-ranges", &big, |r| r.to_json(), |r, rec| check_big(r, rec));
     e.require_class("file_over_64KiB", 1);
     e.require_class("same_kind_set_twice", 1);
     e.require_class("inverted_range", 1);
     e.require_class("empty_string_bound", 1);
 }
 
-pub fn replay(_sub: &str, case: &Value) -> Option<CheckResult> {
+pub fn replay(sub: &str, case: &Value) -> Option<CheckResult> {
     let mut rec = Rec::new(0);
+    if sub == "large-files-sampled-ranges" {
+        return Some(crate::engine::guarded(|| check_big(&gen::Recipe::from_json(case).ok_or_else(bad)?, &mut rec)));
+    }
     Some(crate::engine::guarded(|| check(&Case::from_json(case).ok_or_else(bad)?, true, &mut rec)))
 }
